@@ -37,7 +37,7 @@ def run(plan):
         hosts[h["ip"]] = RefHost(h["ip"], [(h.get("delay", 0.05), h.get("src_port", 6445), data)],
                                  errors=[tuple(e) for e in h.get("errors", [])])
         w.net.add_udp_host(h["ip"], hosts[h["ip"]])
-        if plan.get("auto") and h.get("tcp") in ("ok", "slow", "silent", "hang"):
+        if plan.get("auto") and h.get("tcp") in ("ok", "slow", "silent", "hang", "unreachable", "emfile"):
             from refmodel.device import RefDevice
             d = RefDevice(version=2, device_id=h["device_id"])
             if h["tcp"] == "slow":
@@ -46,6 +46,10 @@ def run(plan):
                 d.default_directive = {"drop": True}
             elif h["tcp"] == "hang":
                 d.conn_script = [["hang", 0]] * 4        # SYNs go unanswered: the 5 s connect timeout runs out
+            elif h["tcp"] == "unreachable":
+                d.conn_script = [["oserror:113", 0.003]] * 4   # the device stopped answering ARP after its UDP reply
+            elif h["tcp"] == "emfile":
+                d.conn_script = [["oserror:24", 0.0]] * 4      # the prober ran out of file descriptors
             w.net.listen(h["ip"], h["port"], d)
             tcp[h["ip"]] = d
     auto = bool(plan.get("auto"))
@@ -193,7 +197,7 @@ def space(tier):
             p["auto"] = True
             for h in hosts:
                 h["version"] = 2
-                h["tcp"] = rng.choice(["ok", "ok", "slow", "silent", "refused", "hang"])
+                h["tcp"] = rng.choice(["ok", "ok", "slow", "silent", "refused", "hang", "unreachable", "emfile"])
                 if rng.random() < 0.8:
                     h["name"] = "net_" + rng.choice(["ac", "AC"]) + "_" + h["name"].split("_", 2)[2]
         return p
